@@ -206,7 +206,7 @@ theorem Path.recv_ledger {P : Perm} {s0 s : Streams} {tr : List Lbl} (h : Path P
 /-- **send ledger (everything but the write path)**: on a path without `pop`/`unpop`, until `pending_send` of
     `k` is cut (reset, error) or the entry removed, the queue is what it was, followed by what was
     queued since, in order -/
-theorem Path.send_ledger {P : Perm} {s0 s : Streams} {tr : List Lbl} (h : Path P s0 s tr) (hw : ¬P.write) (k : Nat)
+theorem Path.send_ledger {P : Perm} {s0 s : Streams} {tr : List Lbl} (h : Path P s0 s tr) (hw : ¬P.write) (hp : ¬P.pop) (k : Nat)
     (hl : wasCut k tr = false) : sq s k = sq s0 k ++ pushed k tr := by
   induction h with
   | refl => simp
@@ -229,7 +229,7 @@ theorem Path.send_ledger {P : Perm} {s0 s : Streams} {tr : List Lbl} (h : Path P
           simp only [pushed1, if_true, Option.toList, hs, ih, List.append_assoc]
         · simp only [sendEff, hj, if_false] at hs
           simp only [pushed1, hj, if_false, Option.toList, List.append_nil, hs, ih]
-      | pop j f => exact absurd ok hw
+      | pop j f => exact absurd ok hp
       | unpop j f => exact absurd ok hw
       | cut j n =>
         have : j ≠ k := by intro e; subst e; simp [wasCut1] at hl2
